@@ -37,6 +37,18 @@ M = [
  ("m-witness-header-field", CL + "acquire-device-properties/device/props/components.h",
   "        size_t bytes_of_frame;\n        struct ImageShape shape;",
   "        uint32_t bytes_of_frame;\n        struct ImageShape shape;"),
+ ("m-consume-all-despite-delay", RT + "runtime/sink.c",
+  "                               (uint8_t*)remaining.beg - (uint8_t*)slice.beg);",
+  "                               (uint8_t*)slice.end - (uint8_t*)slice.beg);"),
+ ("m-consume-drain-honours-delay", RT + "runtime/sink.c",
+  "        CHECK(storage_append(self->storage, slice.beg, slice.end) == Device_Ok);\n        channel_read_unmap(\n          &self->in, &self->reader, (uint8_t*)slice.end - (uint8_t*)slice.beg);",
+  "        struct vfslice rest =\n          vfslice_split_at_delay_ms(&slice, self->write_delay_ms);\n        CHECK(storage_append(self->storage, slice.beg, rest.beg) == Device_Ok);\n        channel_read_unmap(\n          &self->in, &self->reader, (uint8_t*)rest.beg - (uint8_t*)slice.beg);"),
+ ("m-consume-filter-break", RT + "runtime/filter.c",
+  "                    *accumulator = 0;\n                    channel_abort_write(self->out);\n                }\n            }\n        }",
+  "                    *accumulator = 0;\n                    channel_abort_write(self->out);\n                    break;\n                }\n            }\n        }"),
+ ("m-consume-monitor-flush-none", RT + "acquire.c",
+  "                channel_read_unmap(\n                  &video->sink.in, &video->monitor.reader, nbytes);",
+  "                channel_read_unmap(\n                  &video->sink.in, &video->monitor.reader, nbytes / 2);"),
  ("m-step-fixed-stride", RT + "runtime/frame_iterator.c",
   "    it->remaining.beg += cur->bytes_of_frame;",
   "    it->remaining.beg += sizeof(*cur) + bytes_of_image(&cur->shape);"),
@@ -156,7 +168,7 @@ def main():
         for side, txt in (("a", s), ("b", t)):
             os.makedirs(os.path.join(w, side, os.path.dirname(path)))
             open(os.path.join(w, side, path), "wb").write((txt.replace("\n", "\r\n") if crlf else txt).encode())
-        r = subprocess.run(["diff", "-u", "a/" + path, "b/" + path], cwd=w, capture_output=True)
+        r = subprocess.run(["diff", "-u", "--label", "a/" + path, "--label", "b/" + path, "a/" + path, "b/" + path], cwd=w, capture_output=True)
         open(os.path.join(V, "mutants", name + ".patch"), "wb").write(r.stdout)
         shutil.rmtree(w)
     print(len(M), "mutants written")
